@@ -70,7 +70,7 @@ def cases(tier, seed):
             out.append({"family": "mesh", "degree": int(rng.integers(1, 4)), "nel": int(rng.integers(1, 5)),
                         "basis": ["Lagrange", "Lagrange_Disc"][int(rng.integers(2))], "nops": nops})
         else:
-            out.append({"family": "sim", "scene": ["two_balls", "chain", "rod"][int(rng.integers(3))]})
+            out.append({"family": "sim", "scene": ["two_balls", "chain", "rod", "contact_scene", "contact_scene"][int(rng.integers(5))]})
     return out
 
 
@@ -496,6 +496,19 @@ def run_sim(spec, ctx, ct, log):
             ctx.cls(f"sim:solver:{solver.__name__}")
             log.add(f"solve:{solver.__name__}")
             solver(S, 0.06, 2e-3, options=SolverOptions()).solve()
+            log.state_ops += 1
+            ctx.mon("STATE:step_callback")
+        elif scene == "contact_scene":
+            # the scenes of the Signorini-Coulomb check (1-3 spheres, 1-2 planes incl. a moving ground, sphere-sphere pairs)
+            from vlib.props import c18
+            from cardillo.solver import DualStormerVerlet
+            S, info = c18._scene(rng, {"forcefree": False, "frictionless": bool(rng.random() < 0.3)})
+            S.assemble()
+            solver = [Moreau, Rattle, BackwardEuler, DualStormerVerlet][int(rng.integers(4))]
+            ctx.cls(f"sim:solver:{solver.__name__}")
+            log.add(f"solve:{solver.__name__}")
+            opts = SolverOptions(fixed_point_max_iter=5000)
+            (solver(S, 0.1, 5e-3, options=opts, linear_solver="LU") if solver is DualStormerVerlet else solver(S, 0.1, 5e-3, options=opts)).solve()
             log.state_ops += 1
             ctx.mon("STATE:step_callback")
         elif scene == "chain":
